@@ -75,6 +75,20 @@ Theorem C17_select : forall st mws order segs,
 Proof. exact serve_select. Qed.
 Print Assumptions C17_select.
 
+(* HEAD STATEMENT in the terms of Spec.v: the property predicate (exactly one
+   handler, registered, matches the entire path, no longer matching pattern,
+   default iff nothing matches, variables = the substrings as a finite map,
+   middlewares in registration order) evaluates to class 0 on the model's
+   dispatch -- for every reachable state, every middleware list (including
+   middlewares that answer themselves), every iteration order, every request *)
+Theorem C17_dispatch_spec : forall st mws order segs,
+  wf st -> Permutation order (routes_of st) ->
+  let path := filter_path (path_of segs) in
+  dispatch_class (sregs_of st) (st_default st) mws path
+    (fst (serve st mws order segs)) (snd (serve st mws order segs)) = 0%N.
+Proof. exact dispatch_spec. Qed.
+Print Assumptions C17_dispatch_spec.
+
 (* every state reachable by Handle / HandleRemove / DefaultHandle keeps one
    route per pattern, stored under its own pattern and compiled from it *)
 Theorem C17_registered_invariant : forall ops, wf (apply_ops init_state ops).
